@@ -27,6 +27,8 @@ def c17(run):
     from rules import r_misc12
     r_misc12.run_observe_codes_agree(run, P)
     r_misc12.run_copy_loop_exits(run, P)
+    from rules import r_nullbelief
+    run.require_count(r_nullbelief.run_installed(run, P) >= 1 or run.cfg != 'base', 'R-NULL-BELIEF (installed call-out): no installed call-out with a must-dereference summary found')
     from rules import r_cmpbound as _cb
     _cb.run_identity(run, P)
     run.min_instances('R-FILE-MODE', 14)
@@ -87,7 +89,8 @@ def c18(run):
     from rules import r_misc12
     r_misc12.run_linked_destroyed(run, P)
     from rules import r_nullbelief
-    r_nullbelief.run(run, P)
+    _md = r_nullbelief.run(run, P)
+    r_nullbelief.run_installed(run, P, _md)
     run.min_instances('R-NULL-BELIEF', 100)
     from rules import r_relonce
     r_relonce.run(run, P)                # a body handed to coap_add_data_large_*() is released exactly once, also when a later allocation fails
@@ -199,6 +202,7 @@ def c03(run):
     r_codec.run_option_limits(run, P)
     from rules import r_misc12 as _m12
     _m12.run_marker_whole_byte(run, P)
+    _m12.run_short_unit_parsed(run, P)
     r_parsegate.run(run, P)
     r_parsegate.run_outputs(run, P)
     r_parsegate.run_verdict(run, P)
@@ -262,6 +266,7 @@ def c05(run):
     r_stream.run_buffered_examined(run, P)
     from rules import r_misc12
     r_misc12.run_terminator_last(run, P)
+    r_misc12.run_short_unit_parsed(run, P)
     r_stream.run_buffer_param(run, P)
     from rules import r_width as _rw5
     _rw5.run_h(run, P)                   # the declared length of a stream message is computed without wrapping before it is compared with the limits
@@ -569,7 +574,8 @@ def c02(run):
     from rules import r_dangfield
     r_dangfield.run(run, P)
     from rules import r_nullbelief
-    r_nullbelief.run(run, P)
+    _md = r_nullbelief.run(run, P)
+    r_nullbelief.run_installed(run, P, _md)
     from rules import r_elemshift
     r_elemshift.run(run, P)
     from rules import r_misc12
@@ -594,6 +600,7 @@ def c02(run):
     r_stream.run_buffered_examined(run, P)
     from rules import r_misc12
     r_misc12.run_terminator_last(run, P)
+    r_misc12.run_short_unit_parsed(run, P)
     r_stream.run_buffer_param(run, P)
     from rules import r_width as _rw5
     _rw5.run_h(run, P)                   # the declared length of a stream message is computed without wrapping before it is compared with the limits
